@@ -531,7 +531,8 @@ func getNameTableVersion(t *name.Table) (head.Version, bool) {
 	if err != nil {
 		return 0, false
 	}
-	return v, true
+	// Only three decimals survive when the font is written again.
+	return v.Round(), true
 }
 
 func getCFFVersion(fontInfo *type1.FontInfo) (head.Version, bool) {
@@ -542,5 +543,5 @@ func getCFFVersion(fontInfo *type1.FontInfo) (head.Version, bool) {
 	if err != nil {
 		return 0, false
 	}
-	return v, true
+	return v.Round(), true
 }
